@@ -2,6 +2,13 @@ package main
 
 import (
 	"fmt"
+	"golang.org/x/text/encoding"
+	"golang.org/x/text/encoding/charmap"
+	"golang.org/x/text/encoding/japanese"
+	"golang.org/x/text/encoding/korean"
+	"golang.org/x/text/encoding/simplifiedchinese"
+	"golang.org/x/text/encoding/unicode"
+	"golang.org/x/text/encoding/unicode/utf32"
 	"os"
 	"path/filepath"
 	"runtime/debug"
@@ -292,6 +299,30 @@ func runC01(c *Ctx, idx int) {
 					ok = c.c01Tree("parser-stress:foreign-rawtext", doc, "document", r.opts())
 				}
 				if !ok {
+					return
+				}
+			}
+		case sub%64 == 5: // byte streams in encodings other than UTF-8 (with and without byte order mark)
+			prof := fullProfile()
+			prof.MaxBlocks = 6
+			doc := NewArtGen(r, prof).Doc()
+			encs := []struct {
+				name string
+				enc  encoding.Encoding
+			}{
+				{"utf-16le-bom", unicode.UTF16(unicode.LittleEndian, unicode.UseBOM)}, {"utf-16be-bom", unicode.UTF16(unicode.BigEndian, unicode.UseBOM)},
+				{"utf-16le", unicode.UTF16(unicode.LittleEndian, unicode.IgnoreBOM)}, {"utf-32le-bom", utf32.UTF32(utf32.LittleEndian, utf32.UseBOM)},
+				{"utf-32be-bom", utf32.UTF32(utf32.BigEndian, utf32.UseBOM)}, {"utf-32be", utf32.UTF32(utf32.BigEndian, utf32.IgnoreBOM)},
+				{"utf-8-bom", unicode.UTF8BOM}, {"ebcdic-037", charmap.CodePage037}, {"ibm-1047", charmap.CodePage1047}, {"shift-jis", japanese.ShiftJIS},
+				{"euc-kr", korean.EUCKR}, {"gb18030", simplifiedchinese.GB18030}, {"koi8-r", charmap.KOI8R}, {"iso-2022-jp", japanese.ISO2022JP},
+			}
+			for _, e := range encs {
+				b, err := e.enc.NewEncoder().String(doc)
+				if err != nil || b == "" {
+					continue
+				}
+				c.Inc("encoded_inputs")
+				if !c.c01Bytes("encoded:"+e.name, b, r.opts(), r.Intn(3) == 0) {
 					return
 				}
 			}
